@@ -386,3 +386,111 @@ def explain(sk, vals_concrete, k=-1, exc=0, sup=False, text=None):
     prog = compile_prog(text if text is not None else render(sk))
     agree(prog, norm(sk), vals_concrete, k, exc, sup, why)
     return why
+
+
+# ------------------------------------------------------------- C14: hy2py pair
+
+
+def compile_pair(text, filename="<skel>"):
+    """Compile `(setv RESULT (do <text>))` as hy2py does (hy_compile of the whole
+    module), then produce (code from the AST, code from ast.unparse of that AST)."""
+    import hy
+    from hy.compiler import hy_compile
+    from hy.reader import read_many
+    from hy.errors import HyLanguageError
+
+    _MODCOUNT[0] += 1
+    mod = types.ModuleType("vfpair_%d" % _MODCOUNT[0])
+    full = "(setv RESULT (do " + text + "\n))"
+    try:
+        m = hy_compile(read_many(full, filename=filename), mod, filename=filename, source=full)
+    except (HyLanguageError, SyntaxError) as ex:
+        return ("compile-error", type(ex).__name__, str(getattr(ex, "msg", ex))[:200])
+    ca = compile(m, filename, "exec")
+    src = ast.unparse(m)  # the call hy2py_worker makes (hy.compat may have wrapped it)
+    try:
+        tree = ast.parse(src)
+        cb = compile(tree, filename + ".py", "exec")
+    except (SyntaxError, ValueError) as ex:
+        return ("unparse-error", type(ex).__name__, str(ex)[:200], src)
+    return ("ok", ca, cb, src)
+
+
+def _run_module_code(code, vals, k, exc, sup):
+    log = []
+    g = {}
+    E = mkE(log, k, exc)
+    fill_env(g, E, mkCM(E, sup), vals)
+    try:
+        types.FunctionType(code, g)()
+        kind = "value"
+        v = g.get("RESULT")
+    except Exception as e:
+        kind = "raise"
+        v = e
+    return kind, v, log, g
+
+
+def agree_pair(pair, vals, k=-1, exc=0, sup=False, why=None):
+    if why is None and EXPLAIN[0]:
+        del LAST_WHY[:]
+        why = LAST_WHY
+    if pair[0] != "ok":
+        if why is not None:
+            why.append("%s: %r" % (pair[0], pair[1:]))
+        return False
+    ka, va, la, ga = _run_module_code(pair[1], vals, k, exc, sup)
+    kb, vb, lb, gb = _run_module_code(pair[2], vals, k, exc, sup)
+    if ka != kb:
+        if why is not None:
+            why.append("kind %s(%r) vs unparsed %s(%r)" % (ka, va, kb, vb))
+        return False
+    if hasattr(va, "__next__") and hasattr(vb, "__next__"):
+        try:
+            va = list(va)
+        except Exception as e:
+            va = e
+        try:
+            vb = list(vb)
+        except Exception as e:
+            vb = e
+    if not same(va, vb):
+        if why is not None:
+            why.append("value %r vs unparsed %r" % (va, vb))
+        return False
+    if len(la) != len(lb):
+        if why is not None:
+            why.append("log %r vs unparsed %r" % (la, lb))
+        return False
+    for x, y in zip(la, lb):
+        if x != y:
+            if why is not None:
+                why.append("log %r vs unparsed %r" % (la, lb))
+            return False
+    if len(ga) != len(gb):
+        if why is not None:
+            why.append("globals %r vs unparsed %r" % (sorted(ga), sorted(gb)))
+        return False
+    for name in ga:
+        if name not in gb:
+            if why is not None:
+                why.append("global %s missing in unparsed run" % name)
+            return False
+        if name in ("E", "CM", "F", "__builtins__", "hy"):
+            continue
+        if not same(ga[name], gb[name]):
+            if why is not None:
+                why.append("binding %s: %r vs unparsed %r" % (name, ga[name], gb[name]))
+            return False
+    return True
+
+
+def pair_harness_src(name, sk, fault=True, twin=False, text=None, xs_len=2, int_box=None):
+    src, text = harness_src(name, sk, fault=fault, exc=False, sup=False, xs_len=xs_len, twin=twin, text=text, int_box=int_box,
+                            agree_fn="_sk.agree_pair")
+    # replace the two module-level lines: P_ = compile_pair, drop S_
+    lines = src.split("\n")
+    lines[0] = "P_%s = _sk.compile_pair(%r)" % (name, text)
+    lines[1] = "S_%s = None" % name
+    out = "\n".join(lines).replace("_sk.agree_pair(P_%s, S_%s, " % (name, name), "_sk.agree_pair(P_%s, " % name)
+    return out, text
